@@ -71,8 +71,9 @@ def run(ctx):
     if ok and 'local' in [norm(b) for b in cls.bases]:
         ctx.check('R20.2', om.imports.get('local', ('', ''))[0] == 'threading', 'fst_options', '_ThreadOptions', 'local is threading.local', 'base `local` is not threading.local')
     init = om.func('_ThreadOptions.__init__')
-    txt = norm(ast.unparse(init[0].node), 10000) if init else ''
-    ctx.check('R20.2', 'self.__dict__.update(_GLOBAL_OPTIONS_W_DEFAULTS)' in txt, 'fst_options', '_ThreadOptions.__init__',
+    copies = bool(init) and any(isinstance(x, ast.Call) and call_name(x) == 'update' and x.args and norm(x.args[0]) == '_GLOBAL_OPTIONS_W_DEFAULTS'
+                                and norm(x.func.value) in ('self.__dict__', 'vars(self)') for x in ast.walk(init[0].node))
+    ctx.check('R20.2', copies, 'fst_options', '_ThreadOptions.__init__',
               'self.__dict__.update(_GLOBAL_OPTIONS_W_DEFAULTS)', 'each thread must start from a copy of the default table',
               init[0].lineno if init else 0)
     inst = [st for st in om.tree.body if isinstance(st, ast.Assign) and norm(st.targets[0]) == '_OPTIONS']
